@@ -63,12 +63,17 @@ impl Extractor {
                 writer.write_all(buffer.as_slice())?;
             }
 
-            // Write last chunk
-            if end.byte_index > 0 {
+            // Write last chunk. If file starts in the same piece, chunk starts at file's offset
+            let chunk_begin = match start.file_index == end.file_index {
+                true => start.byte_index,
+                false => 0,
+            };
+            if end.byte_index > chunk_begin {
                 let name = utils::hash_to_string(&self.metainfo.piece(end.file_index)) + ".piece";
                 let reader = &mut BufReader::new(File::open(name)?);
+                reader.seek(std::io::SeekFrom::Start(chunk_begin as u64))?;
 
-                let mut buffer = vec![0; end.byte_index];
+                let mut buffer = vec![0; end.byte_index - chunk_begin];
                 reader.read_exact(buffer.as_mut_slice())?;
                 writer.write_all(buffer.as_slice())?;
             }
